@@ -7,18 +7,14 @@ assigned on every path, single writer, no combinational loop), because the prope
 executions.  The typing of the expressions is NOT given to the Lean side by this generator: the checks
 read the real, type-checked RTLIR of the elaborated component.
 
-stream = 'clean'   : the main stream; avoids the shapes of the known findings listed below
-stream = 'F…'      : a labelled stream that deliberately contains one known defect shape:
-   F10a  yosys    struct output port written by field in an update block
-   F10b  yosys    struct port with a nested-struct / list field in output direction
-   F10c  yosys    struct wire written by field and read whole (or written whole and read by field)
-   F10d  yosys    list of sub-components whose struct input port is connected
-   F15   yosys    list of sub-components constructed with different parameters
-   F16   both     sext() of an operand whose text cannot be bit-selected (trunc, reduce, BitsN(), constant)
-   F16b  both     sext() of an element of a list of signals / of a list field
-   F17   verilog  for loop with a negative step that does not land on the bound
-   F18   verilog  loop variable named like a signal of the component
-   F7    both     two component classes with the same name and different bodies
+stream = 'clean'   : the main stream; avoids the shapes of the KNOWN findings (F10, F17, F7) only
+labelled streams (`gen_finding`), one known defect shape each:
+   F10 (yosys)   struct signal kept in several unsynchronised forms: variants field-write (struct output port written by
+                 field), nested-leaf (struct port with a nested-struct / list field in output direction), struct-wire (struct
+                 wire written by field and read whole or vice versa), comp-array (list of sub-components with a struct input)
+   F17 (verilog) for loop with a negative step that does not land on the bound (unsigned loop variable wraps)
+   F7  (both)    two component classes with the same name and different bodies
+regression streams (`gen_fixed`): the shapes of defects repaired by fix: commits (F15, F16, F16b, F18, F19); expected clean.
 """
 import math
 
@@ -156,11 +152,6 @@ class ExprGen:
       if src.sliceable and rng.random() < 0.75:
         lo = rng.choice([0, src.w - w, rng.randint(0, src.w - w)])
         return f'{src.text}[{lo}:{lo + w}]', ('bit1' if w == 1 else 'slice')
-      if self.opts.get('be') == 'yosys' and '.' in src.text[2:]:
-        # yosys finding F19: trunc() of a member / element path is emitted unmangled; go through a slice
-        lo = 0
-        if src.sliceable: return f'{src.text}[{lo}:{lo + w}]', ('bit1' if w == 1 else 'slice')
-        return f'trunc(({src.text} + 0), {w})', 'other'
       return f'trunc({src.text}, {w})', 'other'
     # narrower: extend or pad
     k = rng.random()
@@ -171,8 +162,8 @@ class ExprGen:
     return f'concat({rest}, {src.text})', 'cat'
 
   def sext_ok(self, kind):
-    # operand kinds for which the clean stream uses sext (the others are the F16 / F16b findings)
-    return kind in ('sig', 'slice', 'bit1', 'cmpd', 'cat', 'ext')
+    # every operand kind (F16 / F16b are repaired); a bare constant is left to the type checker's folding quirks
+    return True
 
   def nc(self, w, depth):
     """an expression that is not a bare constant (the type checker folds operators over constants and
@@ -238,8 +229,6 @@ class ExprGen:
       return f'zext({e}, {w})', 'ext'
     cw = w + rng.choice([1, 3, 8])
     e, kind = self.expr(cw, depth - 1)
-    if self.opts.get('be') == 'yosys' and kind in ('sig', 'elem', 'slice', 'bit', 'bit1', 'psel') and '.' in e[2:]:
-      e = f'({e} ^ 0)'                   # yosys finding F19: trunc() of a bare member / element path
     return f'trunc({e}, {w})', 'other'
 
   def int_operand(self, w):
@@ -315,6 +304,7 @@ class DesignGen:
   def build_comp(self, name, level, is_top):
     rng, be = self.rng, self.be
     c = Comp(self, name, level)
+    if not is_top and rng.random() < 0.45: c.params = [('kp', rng.choice([1, 2, 3, 6]))]   # constructor parameter -> closure constant
     yos = be == 'yosys'
     struct_p = self.opts.get('structs', 0.5)
     # ---- ports
@@ -327,7 +317,9 @@ class DesignGen:
       elif r < 0.18 * 2 * struct_p + 0.12:
         ins.append(Sig(f'in{i}', 'in', ('b', rng.choice([2, 4, 8, 8])), n=rng.choice([2, 3, 4]))); self.features.add('port-array-in')
       else:
-        ins.append(Sig(f'in{i}', 'in', ('b', c.W())))
+        nm = 'i' if (i == 0 and rng.random() < 0.06) else f'in{i}'      # a port named like the loop variable
+        if nm == 'i': self.features.add('signal-named-like-loopvar')
+        ins.append(Sig(nm, 'in', ('b', c.W())))
     # narrow selectors help dynamic indexing
     if rng.random() < 0.7: ins.append(Sig('sel', 'in', ('b', rng.choice([1, 2, 2, 3]))))
     for i in range(rng.randint(1, 3)):
@@ -391,6 +383,8 @@ class DesignGen:
     if rng.random() < 0.25:
       w = rng.choice([4, 8]); v = rng.getrandbits(w)
       d.append(f'    fb = Bits{w}({v})'); fb = Ref('fb', w, 'const', sliceable=False); self.features.add('closure-bits')
+    for pn, _ in c.params:
+      consts.append((pn, 7)); self.features.add('ctor-param')      # usable wherever an int < 8 fits (values 0..7 are passed)
     c.consts, c.kb, c.fb = consts, kb, fb
     return c
 
@@ -412,7 +406,14 @@ class DesignGen:
       has_struct_in = any(s.T[0] == 's' for s in ch.ins)
       if rng.random() < 0.25 and not (yos and has_struct_in) and not ch.ifcs: n = 2; self.features.add('comp-array')
       c.children.append((f'c{k}', ch, n))
-      c.decl.append(f'    s.c{k} = {ch.name}()' if n is None else f'    s.c{k} = [ {ch.name}() for _ in range({n}) ]')
+      def inst():
+        return f'{ch.name}( {rng.randint(0, 7)} )' if ch.params else f'{ch.name}()'
+      if n is None: c.decl.append(f'    s.c{k} = {inst()}')
+      elif ch.params and rng.random() < 0.7:
+        c.decl.append(f"    s.c{k} = [ {', '.join(inst() for _ in range(n))} ]"); self.features.add('comp-array-different-params')
+      else:
+        one = inst()
+        c.decl.append(f'    s.c{k} = [ {one} for _ in range({n}) ]')
       self.features.add(f'child-level{c.level + 1}')
     # availability
     scope = Scope()
@@ -669,7 +670,8 @@ class DesignGen:
 
   # -------------------------------------------------------------- rendering
   def render_class(self, c, is_top):
-    out = [f'class {c.name}( Component ):', '  def construct( s ):']
+    args = ''.join(f', {pn}={dv}' for pn, dv in c.params)
+    out = [f'class {c.name}( Component ):', f'  def construct( s{args} ):']
     out += c.decl
     out += c.lines
     out.append('    pass')
@@ -682,10 +684,152 @@ class DesignGen:
       out += ['class GIfc( Interface ):', '  def construct( s, T ):', '    s.msg = InPort( T )', '    s.val = InPort()',
               '    s.rdy = OutPort()', '']
     for cl in self.classes: out += [cl, '']
-    return '\n'.join(out)
+    src = '\n'.join(out)
+    import re
+    wide = sorted({int(m) for m in re.findall(r'\bBits(\d+)\b', src) if int(m) > 256})
+    if wide:        # `from pymtl3 import *` defines Bits1 … Bits256 only
+      alias = '\n'.join(f'Bits{n} = mk_bits({n})' for n in wide)
+      src = src.replace('from pymtl3 import *\n', 'from pymtl3 import *\n' + alias + '\n', 1)
+    return src
 
 def gen_clean(rng, be, opts=None):
   g = DesignGen(rng, be, 'clean', opts)
   top = g.build_comp('Top', 0, True)
   g.finish_comp(top, True)
   return {'src': g.render(), 'label': 'clean', 'features': sorted(g.features)}
+
+# ---------------------------------------------------------------------------------------------
+# labelled streams: one known defect shape each (small directed designs, randomised widths / operands)
+# ---------------------------------------------------------------------------------------------
+F10 = 'F10-struct-output-written-by-field'
+F15 = 'F15-yosys-subcomponent-array-parameters'
+F16 = 'F16-sext-operand-not-selectable'
+F16B = 'F16b-sext-of-list-element'
+F17 = 'F17-negative-step-loop-wraps'
+F18 = 'F18-loop-variable-shadows-signal'
+F19 = 'F19-yosys-trunc-unmangled'
+F7 = 'F7-same-class-name-different-bodies'
+
+FINDING_STREAMS = {
+  # id -> (backends, expected violation kinds)
+  F10: (('yosys',), ('multi-driver', 'undriven', 'output-mismatch')),
+  F17: (('verilog',), ('loop-overrun', 'output-mismatch')),
+  F7: (('verilog', 'yosys'), ('output-mismatch',)),
+}
+FIXED_STREAMS = {
+  # shapes of repaired defects: ordinary clean cases now
+  F15: ('yosys', 'verilog'), F16: ('verilog', 'yosys'), F16B: ('verilog', 'yosys'), F18: ('verilog', 'yosys'), F19: ('yosys', 'verilog'),
+}
+
+def _hdr(): return ['from pymtl3 import *', '']
+
+def gen_finding(rng, be, fid):
+  w = rng.choice([2, 3, 4, 8])
+  w2 = rng.choice([2, 4, 5])
+  variant = None
+  L = _hdr()
+  if fid == F10:
+    variant = rng.choice(['field-write', 'nested-leaf', 'struct-wire', 'comp-array'])
+    L += ['@bitstruct', 'class Fl:', f'  a: Bits{w}', f'  b: Bits{w2}', '']
+    if variant == 'field-write':
+      L += ['class Top( Component ):', '  def construct( s ):', f'    s.x = InPort( Bits{w} )', f'    s.y = InPort( Bits{w2} )',
+            '    s.q = OutPort( Fl )', '    @update', '    def up():', f'      s.q.a @= s.x {rng.choice("+^&")} {rng.randint(0, (1 << w) - 1)}',
+            '      s.q.b @= ~s.y']
+    elif variant == 'nested-leaf':
+      n = rng.choice([2, 3])
+      inner = rng.random() < 0.5
+      if inner: L += ['@bitstruct', 'class Ne:', '  f: Fl', f'  g: Bits{w}', '']
+      else: L += ['@bitstruct', 'class Ne:', f'  f: [Bits{w2}]*{n}', f'  g: Bits{w}', '']
+      L += ['class Top( Component ):', '  def construct( s ):', '    s.p = InPort( Ne )', '    s.q = OutPort( Ne )']
+      L += ['    s.q //= s.p'] if rng.random() < 0.5 else ['    @update', '    def up():', '      s.q @= s.p']
+    elif variant == 'struct-wire':
+      L += ['class Top( Component ):', '  def construct( s ):', f'    s.x = InPort( Bits{w} )', f'    s.y = InPort( Bits{w2} )',
+            '    s.w = Wire( Fl )', '    s.q = OutPort( Fl )']
+      if rng.random() < 0.5:
+        L += ['    @update', '    def up1():', '      s.w.a @= s.x', '      s.w.b @= s.y', '    @update', '    def up2():', '      s.q @= s.w']
+      else:
+        L += [f'    s.o = OutPort( Bits{w} )', '    @update', '    def up1():', '      s.w @= Fl( s.x, s.y )', '    @update', '    def up2():',
+              '      s.o @= ~s.w.a', '      s.q @= s.w']
+    else:
+      L += ['class Leaf( Component ):', '  def construct( s ):', '    s.p = InPort( Fl )', f'    s.o = OutPort( Bits{w} )', '    @update',
+            '    def lb():', f'      s.o @= s.p.a + {rng.randint(0, (1 << w) - 1)}', '',
+            'class Top( Component ):', '  def construct( s ):', '    s.p = InPort( Fl )', f'    s.o = [ OutPort( Bits{w} ) for _ in range(2) ]',
+            '    s.l = [ Leaf() for _ in range(2) ]', '    for i in range(2):', '      s.l[i].p //= s.p', '      s.o[i] //= s.l[i].o']
+  elif fid == F15:
+    k = rng.sample(range(1, 1 << w), 2) if w > 1 else [0, 1]
+    op = rng.choice('+^-')
+    L += ['class Inc( Component ):', '  def construct( s, k ):', f'    s.in_ = InPort( Bits{w} )', f'    s.out = OutPort( Bits{w} )',
+          '    @update', '    def up():', f'      s.out @= s.in_ {op} k', '',
+          'class Top( Component ):', '  def construct( s ):', f'    s.a = InPort( Bits{w} )', f'    s.o = [ OutPort( Bits{w} ) for _ in range(2) ]',
+          f'    s.c = [ Inc( {k[0]} ), Inc( {k[1]} ) ]', '    for i in range(2):', '      s.c[i].in_ //= s.a', '      s.o[i] //= s.c[i].out']
+  elif fid == F16:
+    variant = rng.choice(['trunc', 'reduce', 'cast', 'const', 'partsel', 'loopvar'])
+    W = w + rng.choice([1, 4, 8])
+    L += ['class Top( Component ):', '  def construct( s ):', f'    s.a = InPort( Bits{W} )', '    s.sel = InPort( Bits1 )', f'    s.o = OutPort( Bits{W + 4} )']
+    if variant == 'trunc': body = [f'      s.o @= sext( trunc( s.a, {w} ), {W + 4} )']
+    elif variant == 'reduce': body = [f"      s.o @= sext( reduce_{rng.choice(['and', 'or', 'xor'])}( s.a ), {W + 4} )"]
+    elif variant == 'cast': body = [f'      s.o @= sext( Bits{W}( s.a ), {W + 4} )']
+    elif variant == 'const':
+      L.insert(-4, ''); L += [f'    s.KB = Bits{w}({rng.getrandbits(w)})']
+      body = [f'      s.o @= sext( s.KB, {W + 4} ) + zext( s.a, {W + 4} )']
+    elif variant == 'loopvar':
+      body = [f'      s.o @= 0', f'      for i in range(2):', f'        s.o @= sext( Bits{w}( i ), {W + 4} )']
+    else:
+      iw = clog2(W)
+      L += [f'    s.pb = Wire( Bits{iw} )']
+      body = [f'      s.pb @= zext( s.sel, {iw} )', f'      s.o @= sext( s.a[s.pb:s.pb+{min(w, W - 1)}], {W + 4} )']
+    L += ['    @update', '    def up():'] + body
+  elif fid == F16B:
+    variant = rng.choice(['port-list', 'list-field'])
+    w = max(w, 2)
+    if variant == 'port-list':
+      L += ['class Top( Component ):', '  def construct( s ):', f'    s.arr = [ InPort( Bits{w} ) for _ in range(2) ]',
+            f'    s.o = OutPort( Bits{2 * w} )', '    @update', '    def up():', f'      s.o @= sext( s.arr[{rng.randint(0, 1)}], {2 * w} )']
+    else:
+      L += ['@bitstruct', 'class Pl:', f'  b: [Bits{w}]*2', '  c: Bits1', '',
+            'class Top( Component ):', '  def construct( s ):', '    s.p = InPort( Pl )', f'    s.o = OutPort( Bits{2 * w} )',
+            '    @update', '    def up():', f'      s.o @= sext( s.p.b[{rng.randint(0, 1)}], {2 * w} )']
+  elif fid == F17:
+    W = rng.choice([6, 8])
+    step = rng.choice([2, 3])
+    start = rng.choice([x for x in range(3, W) if x % step != 0])
+    L += ['class Top( Component ):', '  def construct( s ):', f'    s.a = InPort( Bits{W} )', f'    s.o = OutPort( Bits{W} )',
+          '    @update', '    def up():', '      s.o @= 0', f'      for i in range({start}, 0, -{step}):', '        s.o[i] @= s.a[i]']
+  elif fid == F18:
+    W = rng.choice([4, 8])
+    L += ['class Top( Component ):', '  def construct( s ):', f'    s.i = InPort( Bits{W} )', f'    s.o = OutPort( Bits{W} )',
+          '    @update', '    def up():', f'      for i in range({W}):', f"        s.o[i] @= {rng.choice(['s.i[i]', '~s.i[i]'])}"]
+  elif fid == F19:
+    variant = rng.choice(['struct-field', 'subcomponent', 'interface'])
+    W = w + rng.choice([1, 4])
+    if variant == 'struct-field':
+      L += ['@bitstruct', 'class Pq:', f'  a: Bits{W}', f'  b: Bits{W}', '',
+            'class Top( Component ):', '  def construct( s ):', '    s.p = InPort( Pq )', f'    s.o = OutPort( Bits{w} )',
+            '    @update', '    def up():', f"      s.o @= trunc( s.p.{rng.choice('ab')}, {w} )"]
+    elif variant == 'subcomponent':
+      L += ['class Inc( Component ):', '  def construct( s ):', f'    s.in_ = InPort( Bits{W} )', f'    s.out = OutPort( Bits{W} )',
+            '    @update', '    def up():', '      s.out @= s.in_ + 1', '',
+            'class Top( Component ):', '  def construct( s ):', f'    s.a = InPort( Bits{W} )', f'    s.o = OutPort( Bits{w} )',
+            '    s.c = Inc()', '    s.c.in_ //= s.a', '    @update', '    def up():', f'      s.o @= trunc( s.c.out, {w} )']
+    else:
+      L += ['class GIfc( Interface ):', '  def construct( s, T ):', '    s.msg = InPort( T )', '    s.val = InPort()', '    s.rdy = OutPort()', '',
+            'class Top( Component ):', '  def construct( s ):', f'    s.ifc = [ GIfc( Bits{W} ) for _ in range(2) ]', f'    s.o = OutPort( Bits{w} )',
+            '    @update', '    def up():', f'      s.o @= trunc( s.ifc[{rng.randint(0, 1)}].msg, {w} )',
+            '      s.ifc[0].rdy @= s.ifc[0].val', '      s.ifc[1].rdy @= s.ifc[1].val']
+  elif fid == F7:
+    k = rng.sample(range(1, 1 << max(w, 2)), 2)
+    w = max(w, 2)
+    L += ['def mk( k ):', '  class Inner( Component ):', '    def construct( s ):', f'      s.in_ = InPort( Bits{w} )', f'      s.out = OutPort( Bits{w} )',
+          '      @update', '      def up():', f'        s.out @= s.in_ + {{}}'.format('k'), '  return Inner', '',
+          f'A = mk( {k[0]} )', f'B = mk( {k[1]} )', '',
+          'class Top( Component ):', '  def construct( s ):', f'    s.a = InPort( Bits{w} )', f'    s.o1 = OutPort( Bits{w} )', f'    s.o2 = OutPort( Bits{w} )',
+          '    s.x = A()', '    s.y = B()', '    s.x.in_ //= s.a', '    s.y.in_ //= s.a', '    s.o1 //= s.x.out', '    s.o2 //= s.y.out']
+  else:
+    raise ValueError(fid)
+  if fid in FIXED_STREAMS:
+    return {'src': '\n'.join(L) + '\n', 'label': 'fixed:' + fid + (':' + variant if variant else ''), 'features': ['fixed-defect-shape']}
+  return {'src': '\n'.join(L) + '\n', 'label': fid + (':' + variant if variant else ''), 'finding': fid, 'variant': variant,
+          'expect': FINDING_STREAMS[fid][1], 'features': ['finding-stream']}
+
+def gen_fixed(rng, be, fid):
+  return gen_finding(rng, be, fid)
